@@ -446,7 +446,7 @@ fn token_tree_to_goal(token: Token) -> Result<Goal, String> {
                 return parse_subgoal(&token_str);
             };
             let msg = tttg_error("Invalid. Leaf token must be Subgoal.", "");
-            panic!("{}", msg);
+            return Err(msg);
         }, // Leaf
 
         Token::Branch{ token_type, children: _ } => {
@@ -508,7 +508,7 @@ fn token_tree_to_goal(token: Token) -> Result<Goal, String> {
 
                 if token.number_of_children() != 1 {
                     let msg = tttg_error("Group should have 1 child.", "");
-                    panic!("{}", msg);
+                    return Err(msg);
                 }
 
                 let children = token.get_children();
